@@ -18,7 +18,7 @@ import c18_common as cc
 from c18_common import pick
 
 ID = 'C05'
-GEN = ['kernels', 'solve']
+GEN = ['kernels', 'solve', 'constraints']
 PROPS = 'Props/C05.v'
 MODEL_VO = ['Model/Solve.v']
 CASE_TYPE = 'kase'
@@ -117,7 +117,7 @@ def gen_start(rng, T):
 
 
 def fixed_tree(rng, violate=False):
-  n = pick(rng, [1, 2, 3])
+  n = pick(rng, [1, 2, 3, 4])
   kids = []
   for i in range(rng.randint(1, 2)):
     L = lg.gen_leaf(rng, cls=pick(rng, ['Device', 'CDevice', 'IDevice2']), n=n, zero_width='all', cbounds='none')
@@ -128,7 +128,10 @@ def fixed_tree(rng, violate=False):
   T = {'kind': 'set', 'id': 'fs', 'kids': kids, 'sbounds': None, 'sb_kind': 'none'}
   lo, hi = tg.agg_bounds(T, n)
   if violate:      # every slot is fixed and the only flow within bounds misses an aggregate bound
-    T['sbounds'] = [(lo[i] + 1, lo[i] + 2) if i == 0 else (lo[i] - 1, lo[i] + 1) for i in range(n)]
+    # the violated slot is any slot; every other slot has its own (different) bounds, wide enough to hold every slot's sum, so a
+    # constraint that reads another slot's bounds reaches a different verdict
+    j = rng.randrange(n)
+    T['sbounds'] = [(lo[i] + 1, lo[i] + 2) if i == j else (min(lo) - 1 - i, max(lo) + 2 + i) for i in range(n)]
     T['sb_kind'] = 'ineq'
   elif rng.random() < .5:
     T['sbounds'] = [(lo[i] - pick(rng, [F(0), F(1)]), lo[i] + pick(rng, [F(0), F(1)])) for i in range(n)]
@@ -200,7 +203,8 @@ def gen_cases(rng, tier):
         for xk in XKINDS:
           if tier == 'search' and rng.random() < .7:
             continue
-          c = dict(cfg)
+          # the optimiser is not consulted for an all-fixed tree, so the stub variations would repeat one case: a fresh tree each time
+          c = dict(gen_fault_config(rng, i)) if cfg['cfg'] in ('fixed', 'fixed-infeasible') else dict(cfg)
           oi = st * 8 + 4 * int(ok) + XKINDS.index(xk)
           c.update({'kind': 'fault', 'status': st, 'success': ok, 'xkind': xk, 'opts': OPTS[oi % len(OPTS)], 'pre': PRE[(oi // 3) % len(PRE)]})
           out.append(c)
